@@ -55,10 +55,14 @@ CLAIMED = {
    text="Coq theorems: (syntax) over model/DefnSyntax.v -- tokens, definition trees (ranges, form instances, nested modifiers), printer and recursive-descent parser -- every tree is what its printed tokens parse to (c09_parse_print) and a token list parses to at most the one tree that prints to it (c09_parse_sound), for every nesting depth (mutual induction, explicit fuel bound); "
         "(modifiers) sum / product / pow of any number of argument potentials, each an expression of any nesting depth, are the pointwise left-to-right sum / product / power, trans(f, as.constant X) is f(r+X) (c09_sum, c09_product, c09_pow, c09_trans: reduce over the regenerated closures = built callable of the left-nested expression, with C07's value theorem); "
         "(formulas) the j-th [Potential-Form] denotes its own formula over the forms before it with positional binding and call-by-value calls (c09_form_meaning, c09_binding) and the implementation's evaluation over the shared mutable symbol tables yields exactly that (c09_forms_evaluate_to_meaning, from C12). "
-        "Whitespace, continuation lines, '=' vs ':' and entry order live below the token level (pyparsing / configparser lexing): compared on every generated spelling, not modelled (partial). "
-        "Tie: exact bodies of the grammar, _descend_tree, the reducing modifiers (+ regenerated closures, symbol-table code of C12); parse trees of generated and malformed token lists in arbitrary spellings vs ConfigParser's tuple chains; n-ary nested modifiers in [Pair] / [EAM-Embed] / [EAM-Density] (plain and A->B) interval-certified; formulas over + - * / ^ if(), calls, as.polynomial, pymath.* vs the evaluator model by vm_compute.",
-   note="Trusted: Coq kernel; hand-written syntax model tied by AST assertions + parse-tree comparison; lexing by generation; cexprtk operator semantics and pymath = math module assumed; Reals axioms + classic + funext for the modifier theorems (syntax and formula theorems axiom-free); primitive axioms via interval in the correspondence only.",
-   technique="Coq proof (parser/printer round trip by mutual induction; combinator denotation; evaluator purity) + vm_compute and interval-certified correspondence", ref="DESIGN.md section 4 C09"),
+        "(characters) model/Lexer.v restates how pyparsing cuts the text of a definition into tokens (identifier with dotted parts, the three number expressions in their order, '>=' before '>', brackets, comma, skipped whitespace, and the word-end look-ahead that makes '1.5.3' or '1.5abc' no parameter): lexing any rendering of any token list -- any whitespace before each token and at the end, at least one character between two word-like tokens -- "
+        "returns exactly those tokens (c09_lex_render), so two renderings that differ only in whitespace read the same (c09_whitespace_invariant) and every definition tree is read back from every rendering of its printed tokens with every spelling of its labels and numbers (c09_text_roundtrip). "
+        "(whitespace in any text) a non-empty run of whitespace may be replaced by any other and whitespace at the ends dropped, so pieces joined by a newline read like pieces joined by a blank (c09_ws_run, c09_ws_ends, c09_continuation_lines); "
+        "(lines) model/Ini.v restates configparser's line parser as the repository configures it plus the repository's optionxform: the first '=' or ':' splits an option line whichever is written and whatever blanks surround it (c09_delimiter_choice), blanks and tabs anywhere in a key do not matter (c09_key_blanks), and a one-section one-option file with any indentation, delimiter, blanks and any number of continuation lines yields a value that reads like its pieces on one line (c09_file_value_reading). "
+        "The standard library is outside the repository: model/Ini.v is an assumption about it, compared with _RawConfigParser on generated files on every run; float() of a number spelling and entry order are compared only (partial). "
+        "Tie: exact bodies of the grammar, _descend_tree, the reducing modifiers (+ regenerated closures, symbol-table code of C12); parse trees of generated and malformed token lists in arbitrary spellings vs ConfigParser's tuple chains; read_value (lexer + flags + parser) vs _parse_multi_range on renderings, character edits of them, glued lexemes and random strings (accept/reject, labels, float values), pyparsing's number expressions / identifier characters / whitespace and configparser's patterns / flags re-read from the installed libraries; parse_ini vs _RawConfigParser on generated files; thorough tier: all 24 364 strings of a small scope through lexer model and pyparsing; n-ary nested modifiers in [Pair] / [EAM-Embed] / [EAM-Density] (plain and A->B) interval-certified; formulas over + - * / ^ if(), calls, as.polynomial, pymath.* vs the evaluator model by vm_compute.",
+   note="Trusted: Coq kernel; hand-written syntax and lexer models tied by AST assertions + parse-tree comparison (ASCII text only); configparser lexing by generation; cexprtk operator semantics and pymath = math module assumed; Reals axioms + classic + funext for the modifier theorems (syntax and formula theorems axiom-free); primitive axioms via interval in the correspondence only.",
+   technique="Coq proof (lexer and parser/printer round trips by induction; combinator denotation; evaluator purity) + vm_compute and interval-certified correspondence", ref="DESIGN.md section 4 C09"),
  'C10': dict(
    text="Coq theorems over model/Spline.v with the 6x6 (Exp_Spline) and 10x10 (Buck4_Spline) systems translated entry by entry from the np.array literals: for EVERY solution of the system the exponential spline exp(P5(r))+C takes the value, first and second derivative of the two Spline_Points at detach and attach, "
         "including when non-positive values are shifted (c10_exp_join); the buck4 spline's fifth-order piece matches the start potential at detach, is stationary at r_min, meets the third-order piece there with equal value, slope and curvature, which matches the end potential at attach (c10_buck4_join); "
@@ -87,7 +91,7 @@ CLAIMED = {
    note="Trusted: Coq kernel; translator printing; INI lexing by generation; differential comparison of potable outputs runs in the implementation. No axioms.",
    technique="Coq proof over translated decision procedure + state-machine induction + vm_compute correspondence", ref="DESIGN.md section 4 C13"),
  'C14': dict(
-   text="Coq theorems over model/Store.v: for every sequence of override/remove/add operations, applying them to the parsed store equals parsing the hand-edited file, and an operation that cannot be made by hand is a configuration error in both (c14_equiv, induction over the operation list); the edited store is duplicate free; keys are addressed irrespective of whitespace; --list-items is complete with one line per item. "
+   text="Coq theorems over model/Store.v: for every sequence of override/remove/add operations, applying them to the parsed store equals parsing the hand-edited file, and an operation that cannot be made by hand is a configuration error in both (c14_equiv, induction over the operation list); the potable command line (all overrides, then all removals, then all additions, in the order given, nothing collated) is that sequence of operations (c14_cli_equiv) and an item named by two --remove-item options is refused whatever else is on the command line (c14_cli_remove_twice); the edited store is duplicate free; keys are addressed irrespective of whitespace; --list-items is complete with one line per item. "
         "Tie: exact-body assertions of _init_config_parser / _make_config_parser / _create_override_tuple; resulting stores of ConfigParser(overrides=, additional=) and --list-items output of the potable CLI compared by vm_compute; outputs of operations vs hand-edited files compared.",
    note="Trusted: Coq kernel; hand-written store model tied by AST assertions + behavioural comparison; INI lexing by generation (stdlib configparser). Reading: removing a section's last item by hand also removes its header. No axioms.",
    technique="Coq proof (commutation by induction over operations) over a store model + vm_compute correspondence", ref="DESIGN.md section 4 C14"),
